@@ -582,7 +582,14 @@ cannot parse duration string `%s'", argi->alt_inc_arg);
 				lst.d = dt_date(fst.d.typ);
 				dt_make_d_only(&lst, fst.d.typ);
 			}
-			clo.ite->d = dt_make_ddur(DT_DURD, 1);
+			if (fst.d.typ != DT_BIZDA) {
+				clo.ite->d = dt_make_ddur(DT_DURD, 1);
+			} else {
+				/* a day on from a friday is still that friday
+				 * when written as business day, we'd never
+				 * get anywhere */
+				clo.ite->d = dt_make_ddur(DT_DURBD, 1);
+			}
 		} else if (dt_sandwich_only_t_p(fst)) {
 			/* emulates old tseq(1) */
 			if (argi->nargs == 1U) {
@@ -594,7 +601,8 @@ cannot parse duration string `%s'", argi->alt_inc_arg);
 				lst = dt_datetime(fst.typ);
 				dt_make_sandwich(&lst, fst.d.typ, DT_HMS);
 			}
-			clo.ite->d = dt_make_ddur(DT_DURD, 1);
+			clo.ite->d = dt_make_ddur(
+				fst.d.typ != DT_BIZDA ? DT_DURD : DT_DURBD, 1);
 		} else {
 			error("\
 don't know how to handle single argument case");
